@@ -9,49 +9,72 @@ from fractions import Fraction
 
 from common import time_limit, hex6, unhex6, Timeout
 from gen import c13docs
+from gen import c13keys
 
 ID = "C13"
-GEN_DEPENDS = []
-RULE = ("grammar-generated Newick and NEXUS documents (0-4 TREES blocks, TITLE/LINK, TRANSLATE, TAXA block, character and "
+GEN_DEPENDS = ["C13Keys"]
+RULE = ("grammar-generated Newick and NEXUS documents (0-4 TREES blocks, TITLE/LINK, TRANSLATE, TAXA block, character, SETS-class and "
         "unknown blocks in between, comments at every capture position, [&R]/[&U], [&W], metadata comments, blank nodes, "
         "quoted/underscored/case-variant labels) x reader options (rooting, weights, metadata, underscores, taxa "
-        "suppression); NeXML documents written from them; thorough adds every document of a small grammar; "
-        "non-trivial = at least 2 trees or at least 2 tree blocks in the source")
+        "suppression); every third document is followed by a second source of the same layout and every third by a second NEXUS "
+        "source with a layout of its own (no TAXA block, new taxa, TRANSLATE or not), read through every several-source route; "
+        "four source-keyword combinations per document (data/string/file/stream/path, two keywords, none, no schema, missing path, "
+        "get and read); TreeArray.read with and without burn-in and weights; NeXML documents written from them; thorough adds every "
+        "document of a small grammar; non-trivial = at least 2 trees or at least 2 tree blocks in the source")
 MODELLED_NOT_VERIFIED = [
     "C13: the Lean front ends are hand-written from NewickReader.tree_iter/_read, NewickTreeDataYielder._yield_items_from_stream, "
     "NexusReader._parse_nexus_stream/_parse_trees_block/_parse_taxa_block/_parse_tree_statement/_parse_translate_statement, "
-    "NexusTreeDataYielder._yield_items_from_stream/_yield_from_trees_block, Tree/TreeList._parse_and_create_from_stream; tied to the "
-    "code by the per-document comparison of every route's output",
+    "NexusTreeDataYielder._yield_items_from_stream/_yield_from_trees_block, Tree/TreeList._parse_and_create_from_stream, "
+    "DataYielder.__iter__, TreeArray.add_tree/validate_rooting/read_from_files/read; tied to the code by the per-document comparison "
+    "of every route's output, and (tie A) by Gen/C13Keys.lean: the block-name dispatch of both stream loops, the statement keywords / "
+    "end tokens of both TREES-block loops and the source-keyword tables are regenerated from the source on every run and bridged to "
+    "the model by theorems (reader_block_dispatch_table, yielder_block_dispatch_table, front_end_copies_agree, "
+    "trees_block_tables_as_modelled; the source dispatch of the model RUNS on the regenerated tables)",
     "C13: the model reads the token stream produced by the real NexusTokenizer (text, quoted flag, captured comments, end-of-input flag); "
     "the tokenizer itself, float() of lengths and weights, and parse_comment_metadata_to_annotations are applied on the Python side to both",
-    "C13: NeXML routes (ElementTree), CharacterMatrix.get vs DataSet, TreeArray.read and string/stream/path dispatch are compared on the "
-    "implementation only (oracle), not modelled; a parsed CHARACTERS/SETS block is a statement skeleton in the model",
+    "C13: NeXML routes (ElementTree) and CharacterMatrix.get vs DataSet are compared on the implementation only (oracle), not modelled; "
+    "a parsed CHARACTERS/SETS block is a statement skeleton in the model (the matrix parser is C09's); a tree array entry is the tree "
+    "itself (its split/edge-length tuples are C01's/C05's and are tied to the tree by the oracle); opening a path / URL is a look-up in "
+    "an abstract world (url= is not exercised); trees delivered by the iterator BEFORE an error in the same file (and what an array "
+    "keeps of them) are not modelled: a failing read is just the error",
     "C13: one taxon namespace per call in the model (documents with at most one TAXA block); case-sensitive namespaces and non-ASCII labels are not modelled",
 ]
 EXPLANATION = ("Theorems (Props/C13.lean, about the definitions drv_c13 runs; the shared tree-statement parser is never unfolded): "
-               "newick_reader_eq_yielder, trees_block_reader_eq_yielder (the separately written yielder loops deliver exactly what the reader "
-               "loops put into one list: same trees, order, namespace, errors; unconditional; the TRANSLATE branch reuses the block's mapper on "
-               "both sides, which /repo does once fixes/C13-yielder-translate-mapper.patch is in), yield_eq_list_newick (route level: the yield "
-               "op = the list op), reader_eq_yielder_partial and yield_eq_list_nexus_partial (whole NEXUS stream; partial: documents whose "
-               "block loop meets no SETS/ASSUMPTIONS/CODONS block - counted per run in input_distribution - and the reader side run with the "
-               "yielder's attached namespace), yield_eq_list_nexus (route level, both sides as the driver runs them: whenever the list op "
-               "- reader, namespace not attached - reads the source, the yield op delivers the same trees and namespace labels; proved by a "
-               "simulation of every successful non-attached run by the attached run, Theory/C13Sim.lean; still under noSetsBlocks, now "
-               "evaluated on the driver's own list run; one direction, success only; noSetsBlocks is an executable model predicate - driver "
-               "op nosets - evaluated on every generated NEXUS document: the share inside the theorem's domain is in input_distribution, "
-               "about 80 %; well-formed documents with a SETS/ASSUMPTIONS/CODONS block are outside every stream-level theorem), "
-               "attached_reader_simulates (the reader with an attached namespace - DataSet.get(taxon_namespace=), driver flags 11 - reproduces "
-               "every successful run of the reader without one, any factory, no SETS restriction; one direction), "
-               "whole_eq_flatten, incremental_eq_whole (consequences of the reader being parametric in the tree-list factory, which is how the "
-               "code is written: tree_list_factory is an argument), incremental_collection, dataset_eq_lists_partial (same exclude_chars on both "
-               "sides only), offset_spec / offset_neg_spec / offset_default / offset_list_spec / offset_list_default / offsets_enumerate_whole / "
-               "tree_get_label (Tree.get / TreeList.get are 'read every collection, then index', in the code and in the model alike: the content "
-               "of these theorems is the Python indexing arithmetic incl. negative offsets and that label= touches nothing but the name). "
-               "newickStmt_progress / nexusTreeStmt_progress (the shared tree-statement parser consumes >= 1 token whenever it delivers a "
-               "tree; Theory/C13Progress.lean) and newickIter_check_dead / newickYieldLoop_check_dead / treeRunR_check_dead / "
-               "treeRunY_check_dead (hence the run-time progress checks of the four loops over it are dead code: each loop satisfies the plain "
-               "unfolding of the Python `while True`). The remaining loops (child loop inside the parser, TAXA / TRANSLATE / TREES-block / "
-               "stream loops) still re-check progress at run time and answer `stuck` otherwise; a stuck answer is a disagreement (never observed). "
+               "newick_reader_eq_yielder, trees_block_reader_eq_yielder (the separately written iterator loops deliver exactly what the reader "
+               "loops put into one list: same trees, order, namespace, errors; unconditional), reader_eq_yielder (whole NEXUS stream, full "
+               "equality, SETS/ASSUMPTIONS/CODONS blocks INCLUDED although the reader scans over them and the iterator skips them statement by "
+               "statement: a stuttering simulation, Theory/C13Sets.lean; hypothesis setsClean = the skipped statements hold no token BEGIN and "
+               "do not run into the end of input; executable, driver op setsclean, evaluated on every generated NEXUS document, share in "
+               "input_distribution), yield_eq_list_newick, yield_eq_attached_list_nexus (route level, full equality with the attached reader), "
+               "attached_reader_simulates (the reader with an attached namespace reproduces every successful run of the reader without one, "
+               "Theory/C13Sim.lean; one direction by design), yield_eq_list_nexus (route level, both sides as the driver runs them: whenever "
+               "TreeList.get reads the source, Tree.yield_from_files delivers the same trees and namespace labels; one direction - the converse "
+               "is a listed known finding), dataset_blocks_eq / dataset_eq_lists (DataSet.get at the REAL differing settings - it parses "
+               "character and SETS-class blocks, the tree routes skip them - delivers the same collections; second simulation, "
+               "Theory/C13Chars.lean, hypothesis charsClean, driver op charsclean; a parsed block is its statement skeleton), "
+               "stream_step_consumes + streamLoopR_check_dead / streamLoopY_check_dead (every turn of the block loop consumes a token or ends "
+               "at end of input, through every block parser, Theory/C13Mono.lean: the run-time progress checks of both stream loops are dead "
+               "code), whole_eq_flatten, incremental_eq_whole, incremental_collection, readMany_prefix, "
+               "yield_files_eq_successive_reads_newick (Tree.yield_from_files([a,b,..]) = successive TreeList.read calls, any number of Newick "
+               "sources), yield_files_append, array_add_trees_spec (add_trees records every tree in order with the weight rule and refuses "
+               "exactly a differing rooting state), array_read_eq_list_then_add_newick / _nexus (TreeArray.read = TreeList.get into the "
+               "array's namespace followed by add_trees past the burn-in), array_files_append (read_from_files over several sources = "
+               "successive calls), array_keeps_entries, burn_in_spec, source_dispatch_irrelevant / source_keyword_exactly_one / "
+               "source_missing_path / source_tables_coherent (string = stream = path; decided on the REGENERATED keyword tables, which the "
+               "model's dispatch runs on), front_end_copies_agree, trees_block_tables_as_modelled, streamStepR_by_kind + "
+               "reader_block_dispatch_table, streamStepY_by_kind + yielder_block_dispatch_table (the block dispatch of both model loops is "
+               "the table regenerated from the source), offset_spec / offset_neg_spec / offset_default / offset_list_spec / "
+               "offset_list_default / offsets_enumerate_whole / tree_get_label (Python indexing incl. negative offsets; label= touches nothing "
+               "but the name), newickStmt_progress / nexusTreeStmt_progress and the four *_check_dead theorems over them, treesLoopR_check_dead / "
+               "treesLoopY_check_dead / taxaLoop_check_dead / translateLoop_never_stuck (Theory/C13Dead.lean: those loops' run-time progress "
+               "checks are dead code too), namespace_only_grows / _yield / _routes / _files + earlier_taxa_keep_their_place (shared namespace "
+               "across calls: every route only APPENDS taxa, through the shared tree-statement parser, TAXLABELS, TRANSLATE and every block "
+               "loop, Theory/C13NsMono.lean - so a tree read earlier stays attached to the same taxa whatever is read later). "
+               "Still re-checking progress at run time (a `stuck` answer would be a disagreement, never observed): the child loop inside the "
+               "tree-statement parser. NOT proved: idempotence of a shared namespace (a second read of the same source from the namespace the "
+               "first one left delivers the same trees on the same taxa) - oracle and correspondence only; the several-source NEXUS iterator "
+               "vs successive reads (correspondence + oracle; the model resets per-file reader state, "
+               "fixes/C13-nexus-yielder-per-file-ntax.patch); NeXML. "
                "Generated documents avoid three input classes listed as known findings; their witnesses are replayed on every run.")
 
 ROUTE_TIMEOUT = 20
@@ -667,6 +690,18 @@ def check_two_sources(case, dendropy, docA, docB, first, alone, schema, opts):
         ta = case.attempt(name, arr, **extra)
         if ta is not None and len(ta) != len(want):
             case.fail("route", name, "records %d trees, the two sources hold %d + %d" % (len(ta), len(first), len(alone)), **extra)
+        # with a burn-in: the first k trees of EACH source are skipped, nothing else
+        name = "TreeArray.read_from_files([A, B], tree_offset=1)"
+
+        def arr1():
+            ta = dendropy.TreeArray()
+            ta.read_from_files([io.StringIO(docA["text"]), io.StringIO(docB["text"])], schema, tree_offset=1, **opts)
+            return ta
+        ta = case.attempt(name, arr1, **extra)
+        expect = max(0, len(first) - 1) + max(0, len(alone) - 1)
+        if ta is not None and len(ta) != expect:
+            case.fail("route", name, "records %d trees, the two sources hold %d + %d: %d are past the first of their source" % (
+                len(ta), len(first), len(alone), expect), **extra)
 
 
 def check_shared_identity(ctx, dendropy, docA, docB, tmpdir):
@@ -987,10 +1022,28 @@ def correspond(ctx, dendropy, doc, session, blocks_shape, refusal_only=False):
         return {"blocks": [[tree_rec(t, tk) for t in tl] for tl in ds.tree_lists], "ident": identity_pattern_impl(flat)}
 
     kw = dict(opts, data=text, schema=schema)
-    session.add(model_line("list", doc, toks, tail), "TreeList.get", case,
-                impl_answer(lambda: impl_list(dendropy.TreeList.get(**kw))), canon_list)
-    session.add(model_line("yield", doc, toks, tail), "Tree.yield_from_files", case,
-                impl_answer(lambda: impl_list(dendropy.Tree.yield_from_files([io.StringIO(text)], schema, **opts))), canon_list)
+
+    # an intermediate observable besides the trees: the taxon namespace the read leaves behind (labels in order of creation)
+    def canon_list_ns(j):
+        a = canon_list(j)
+        if "err" not in a:
+            a["ns"] = [unhex6(x) for x in j["ns"]]
+        return a
+
+    def impl_list_ns(trees, ns):
+        a = impl_list(trees)
+        a["ns"] = [t.label for t in ns._taxa]
+        return a
+
+    def whole_list():
+        tl = dendropy.TreeList.get(**kw)
+        return impl_list_ns(tl, tl.taxon_namespace)
+
+    def whole_yield():
+        ns = dendropy.TaxonNamespace()
+        return impl_list_ns(dendropy.Tree.yield_from_files([io.StringIO(text)], schema, taxon_namespace=ns, **opts), ns)
+    session.add(model_line("list", doc, toks, tail), "TreeList.get", case, impl_answer(whole_list), canon_list_ns)
+    session.add(model_line("yield", doc, toks, tail), "Tree.yield_from_files", case, impl_answer(whole_yield), canon_list_ns)
     session.add(model_line("dataset", doc, toks, tail), "DataSet.get", case,
                 impl_answer(lambda: impl_blocks(dendropy.DataSet.get(**kw))), canon_blocks)
     if schema == "nexus":
@@ -1007,12 +1060,23 @@ def correspond(ctx, dendropy, doc, session, blocks_shape, refusal_only=False):
         session.add(model_line("list", doc, toks, tail, flags="00"), "list @ exclude_chars=False", case,
                     flat(impl_answer(lambda: impl_blocks(dendropy.DataSet.get(**kw)))), canon_list)
         if not refusal_only:
-            # is the document inside the domain of the stream-level theorems?  (the predicate `noSetsBlocks` itself, on the list run)
-            def canon_nosets(j):
-                ctx.count("nexus_docs_in_domain_of_yield_eq_list_nexus(noSetsBlocks)" if j is True
-                          else "nexus_docs_outside_noSetsBlocks(correspondence only)")
-                return None
-            session.add(model_line("nosets", doc, toks, tail), "noSetsBlocks", case, None, canon_nosets)
+            # is the document inside the domain of the stream-level theorems?  The hypotheses themselves, as executable model
+            # predicates: `setsClean` on the iterator's run (reader_eq_yielder, yield_eq_list_nexus, array_read_eq_list_then_add_nexus),
+            # `charsClean` on the data set route's run (dataset_blocks_eq, dataset_eq_lists)
+            def counter(inside, outside):
+                def canon(j):
+                    ctx.count(inside if j is True else outside)
+                    return None
+                return canon
+            session.add(model_line("setsclean", doc, toks, tail), "setsClean", case, None,
+                        counter("nexus_docs_in_domain_of_reader_eq_yielder(setsClean)", "nexus_docs_outside_setsClean(correspondence only)"))
+            session.add(model_line("charsclean", doc, toks, tail), "charsClean", case, None,
+                        counter("nexus_docs_in_domain_of_dataset_eq_lists(charsClean)", "nexus_docs_outside_charsClean(correspondence only)"))
+            if re.search(r"(?i)begin\s+(sets|assumptions|codons)\b", text):
+                ctx.count("nexus_docs_with_a_SETS_class_block")
+    if not refusal_only:
+        correspond_array(ctx, dendropy, doc, session, toks, tail, mc, tk, case)
+        correspond_source_keywords(ctx, dendropy, doc, session, toks, tail, canon_list, impl_list, case)
     if refusal_only:
         # the reference route refuses the document: the model must refuse it on the same routes (kind of refusal compared)
         # (list / yield / dataset above carry every length and weight of the source; a single-tree answer would hide a
@@ -1052,6 +1116,233 @@ def correspond(ctx, dendropy, doc, session, blocks_shape, refusal_only=False):
         okw2 = dict(kw, tree_offset=0)
         session.add(model_line("list", doc, toks, tail, tree=0), "TreeList.get(None,0)", dict(case, tree=0),
                     impl_answer(lambda: impl_list(dendropy.TreeList.get(**okw2))), canon_list)
+
+
+def array_err(e):
+    from dendropy.utility import error
+    if isinstance(e, error.MixedRootingError):
+        return "mixed"
+    if isinstance(e, error.DataParseError):
+        return "parse"
+    return "Internal(%s)" % type(e).__name__
+
+
+def array_answer(dendropy, ta, n_before, added, tk, trees):
+    """what is compared of a tree array after a read: how many trees it took, its rooting commitment, the weight it recorded
+    for each, and (from the list route, which the oracle ties to the array's split records) the trees themselves"""
+    weights = getattr(ta, "_tree_weights", None)          # no public accessor for the per-tree weight
+    return {"added": added, "rooted": ta.is_rooted_trees,
+            "weights": None if weights is None else [str(Fraction(w)) for w in list(weights)[n_before:]],
+            "trees": [tree_rec(t, tk) for t in trees]}
+
+
+def canon_array(mc, weights_known):
+    def canon(j):
+        if "err" in j:
+            return {"err": {"MixedRootingError": "mixed"}.get(j["err"], canon_err(j["err"]))}
+        labels = [unhex6(x) for x in j["ns"]]
+        r = j["r"]
+        ex = len(r["entries"]) - r["added"]
+        new = r["entries"][ex:]
+        kept = all(e["t"]["n"] is not None and unhex6(e["t"]["n"]) == "e%d" % i for i, e in enumerate(r["entries"][:ex]))
+        ws = []
+        for e in new:
+            ws.append(str(Fraction(1)) if e["w"] is None else mc.weight(e["w"]))
+        return {"added": r["added"] if kept else "existing entries changed", "rooted": r["rooted"],
+                "weights": ws if weights_known else None, "trees": [mc.tree(e["t"], labels) for e in new]}
+    return canon
+
+
+def burn(trees, k):
+    return list(trees) if k <= 0 else list(trees)[k:]
+
+
+def correspond_array(ctx, dendropy, doc, session, toks, tail, mc, tk, case):
+    """TreeArray.read on the model (op `array`) and on the implementation: trees taken (after the burn-in), rooting
+    commitment, recorded weights, refusal of mixed rooting"""
+    schema, text, opts = doc["schema"], doc["text"], doc["opts"]
+    if opts.get("suppress_leaf_node_taxa"):
+        return
+    try:
+        ref_trees = dendropy.TreeList.get(data=text, schema=schema, **opts)
+    except Exception:
+        return
+    tk0 = TaxKey(None)
+    if not all(array_comparable(tree_rec(t, tk0)) for t in ref_trees):
+        return       # the split encoder's business (see array_comparable); the array may refuse such trees outright
+    for k, use_w in ((0, True), (1, True), (0, False)):
+        def run(k=k, use_w=use_w):
+            ta = dendropy.TreeArray(use_tree_weights=use_w)
+            kw = dict(opts, data=text, schema=schema)
+            if k:
+                kw["tree_offset"] = k
+            try:
+                with time_limit(ROUTE_TIMEOUT):
+                    n = ta.read(**kw)
+            except Exception as e:
+                return {"err": array_err(e)}
+            tl = dendropy.TreeList.get(data=text, schema=schema, taxon_namespace=ta.taxon_namespace, **opts)
+            return array_answer(dendropy, ta, 0, n, tk, burn(tl, k))
+        impl = run()
+        session.add(model_line("array", doc, toks, tail, coll=(None if use_w else 0), tree=k),
+                    "TreeArray.read(tree_offset=%d, use_tree_weights=%s)" % (k, use_w), dict(case, tree=k, use_tree_weights=use_w),
+                    impl, canon_array(mc, "err" in impl or impl.get("weights") is not None))
+        ctx.count("array_reads_compared_with_model")
+
+
+SOURCE_SPECS = ["data", "string", "file", "stream", "path", "path!", "data+path", "file+string", "none", "data+noschema",
+                "read+data", "read+file", "read+path", "read+path!", "read+data+file", "read+none"]
+
+
+def correspond_source_keywords(ctx, dendropy, doc, session, toks, tail, canon_list, impl_list, case):
+    """the dispatch on the source keyword (`_get_from` / `_read_from`): TreeList.get / TreeList().read through each keyword, through
+    two keywords, through none, without schema, through a path that does not exist - against the model's `src:<spec>:list`"""
+    schema, text, opts = doc["schema"], doc["text"], doc["opts"]
+    specs = [SOURCE_SPECS[i] for i in sorted(ctx.rng.sample(range(len(SOURCE_SPECS)), 4))]
+    tmpdir = tempfile.mkdtemp(prefix="c13s-")
+    try:
+        fd, path = tempfile.mkstemp(dir=tmpdir, suffix=".txt")
+        with os.fdopen(fd, "w", newline="") as f:
+            f.write(text)
+        for spec in specs:
+            items = spec.split("+")
+            kw = dict(opts)
+            if "noschema" not in items:
+                kw["schema"] = schema
+            for it in items:
+                if it in ("data", "string"):
+                    kw[it] = text
+                elif it in ("file", "stream"):
+                    kw[it] = io.StringIO(text)
+                elif it == "path":
+                    kw[it] = path
+                elif it == "path!":
+                    kw["path"] = os.path.join(tmpdir, "no-such-file.txt")
+
+            def run(kw=kw, via_read="read" in items):
+                try:
+                    with time_limit(ROUTE_TIMEOUT):
+                        if via_read:
+                            tl = dendropy.TreeList()
+                            tl.read(**kw)
+                        else:
+                            tl = dendropy.TreeList.get(**kw)
+                except TypeError:
+                    return {"err": "TypeError"}
+                except OSError:
+                    return {"err": "IOError"}
+                except Exception as e:
+                    return {"err": err_name(e)}
+                return impl_list(tl)
+
+            def canon(j, inner=canon_list):
+                if "err" in j and j["err"] in ("TypeError", "IOError"):
+                    return {"err": j["err"]}
+                return inner(j)
+            session.add(model_line("src:%s:list" % spec, doc, toks, tail), "TreeList.%s(%s)" % ("read" if "read" in items else "get", spec),
+                        dict(case, source=spec), run(), canon)
+            ctx.count("source_keyword_routes:" + spec)
+    finally:
+        shutil.rmtree(tmpdir, ignore_errors=True)
+
+
+def model_line_multi(op, docs_toks, doc, **kw):
+    """a protocol line over several sources: the groups `tail tok …` joined by `//`"""
+    (toks0, tail0) = docs_toks[0]
+    line = model_line(op, doc, toks0, tail0, **kw)
+    for toks, tail in docs_toks[1:]:
+        words = ["//", str_list_field(tail)]
+        for t, q, e, coms in toks:
+            words.append("%s|%d|%d|%s" % (hex6(t), 1 if q else 0, 1 if e else 0, str_list_field(coms)))
+        line += " " + " ".join(words)
+    return line
+
+
+def correspond_multi(ctx, dendropy, docA, docB, session):
+    """several sources in one call, model and implementation: Tree.yield_from_files([A, B]) per file, TreeList().read(A); .read(B),
+    TreeArray.read_from_files([A, B], tree_offset=k)"""
+    if not (ascii_only(docA) and ascii_only(docB)) or docA["opts"] != docB["opts"] or docA["schema"] != docB["schema"]:
+        return
+    opts, schema = docA["opts"], docA["schema"]
+    if opts.get("case_sensitive_taxon_labels"):
+        return
+    try:
+        dt = [tokenize(dendropy, d["text"], opts.get("preserve_underscores", False)) for d in (docA, docB)]
+    except Exception:
+        return
+    mc = ModelCanon(opts)
+    tk = TaxKey(None)
+    case = {"schema": schema, "first": docA["text"], "text": docB["text"], "opts": opts}
+
+    def files():
+        return [io.StringIO(docA["text"]), io.StringIO(docB["text"])]
+
+    def run_yield():
+        try:
+            with time_limit(ROUTE_TIMEOUT):
+                y = dendropy.Tree.yield_from_files(files(), schema, **opts)
+                groups, flat = [[], []], []
+                for t in y:
+                    groups[y.current_file_index].append(t)
+                    flat.append(t)
+        except Exception as e:
+            return {"err": err_name(e)}
+        return {"files": [[tree_rec(t, tk) for t in g] for g in groups], "ident": identity_pattern_impl(flat)}
+
+    def canon_files(j):
+        if "err" in j:
+            return {"err": canon_err(j["err"])}
+        labels = [unhex6(x) for x in j["ns"]]
+        return {"files": [[mc.tree(t, labels) for t in g] for g in j["r"]], "ident": identity_pattern_model([t for g in j["r"] for t in g])}
+    session.add(model_line_multi("yieldfiles", dt, docA), "Tree.yield_from_files([A, B])", case, run_yield(), canon_files)
+
+    def run_reads():
+        try:
+            with time_limit(ROUTE_TIMEOUT):
+                tl = dendropy.TreeList()
+                tl.read(data=docA["text"], schema=schema, **opts)
+                tl.read(data=docB["text"], schema=schema, **opts)
+        except Exception as e:
+            return {"err": err_name(e)}
+        return {"trees": [tree_rec(t, tk) for t in tl], "ident": identity_pattern_impl(list(tl))}
+
+    def canon_trees(j):
+        if "err" in j:
+            return {"err": canon_err(j["err"])}
+        labels = [unhex6(x) for x in j["ns"]]
+        return {"trees": [mc.tree(t, labels) for t in j["r"]], "ident": identity_pattern_model(j["r"])}
+    session.add(model_line_multi("readmany", dt, docA), "TreeList().read(A); .read(B)", case, run_reads(), canon_trees)
+    ctx.count("two_source_routes_compared_with_model")
+    # the array over both files
+    if opts.get("suppress_leaf_node_taxa"):
+        return
+    try:
+        tl = dendropy.TreeList()
+        tl.read(data=docA["text"], schema=schema, **opts)
+        nA = len(tl)
+        tl.read(data=docB["text"], schema=schema, **opts)
+    except Exception:
+        return
+    tk0 = TaxKey(None)
+    if not all(array_comparable(tree_rec(t, tk0)) for t in tl):
+        return
+    for k in (0, 1):
+        def run_arr(k=k):
+            ta = dendropy.TreeArray()
+            try:
+                with time_limit(ROUTE_TIMEOUT):
+                    ta.read_from_files(files(), schema, tree_offset=k, **opts)
+            except Exception as e:
+                return {"err": array_err(e)}
+            tl2 = dendropy.TreeList(taxon_namespace=ta.taxon_namespace)
+            tl2.read(data=docA["text"], schema=schema, **opts)
+            n1 = len(tl2)
+            tl2.read(data=docB["text"], schema=schema, **opts)
+            trees = burn(list(tl2)[:n1], k) + burn(list(tl2)[n1:], k)
+            return array_answer(dendropy, ta, 0, len(ta), tk, trees)
+        impl = run_arr()
+        session.add(model_line_multi("array", dt, docA, tree=k), "TreeArray.read_from_files([A, B], tree_offset=%d)" % k, dict(case, tree=k),
+                    impl, canon_array(mc, "err" in impl or impl.get("weights") is not None))
 
 
 def correspond_incremental(ctx, dendropy, docA, docB, session):
@@ -1236,6 +1527,15 @@ def run(ctx):
                 doc2 = (c13docs.gen_newick if doc["schema"] == "newick" else c13docs.gen_nexus)(rng, "small", like=doc["info"])
                 check_shared_identity(ctx, dendropy, doc, doc2, tmpdir)
                 correspond_incremental(ctx, dendropy, doc, doc2, session)
+                correspond_multi(ctx, dendropy, doc, doc2, session)
+                ctx.count("second_source:same_layout")
+            elif i % 3 == 1 and doc["schema"] == "nexus":
+                # a second NEXUS source with a layout of its own (no TAXA block, new taxa next to known ones, TRANSLATE or not)
+                doc2 = c13docs.gen_nexus(rng, "small", with_chars=False, like=dict(doc["info"], fresh_layout=True))
+                check_shared_identity(ctx, dendropy, doc, doc2, tmpdir)
+                correspond_multi(ctx, dendropy, doc, doc2, session)
+                ctx.count("second_source:own_layout(taxa_block_first=%s,translate_second=%s)" % (
+                    bool(doc["info"].get("taxa_block")), bool(re.search(r"(?i)\btranslate\b", doc2["text"]))))
             # NeXML routes on the implementation
             if i % 4 == 0:
                 x = nexml_of(dendropy, doc)
@@ -1282,6 +1582,7 @@ def replay(ctx, rec):
             docA = {"schema": c["schema"], "text": c["first"], "opts": c.get("opts", {})}
             check_shared_identity(ctx, dendropy, docA, doc, tmpdir)
             correspond_incremental(ctx, dendropy, docA, doc, session)
+            correspond_multi(ctx, dendropy, docA, doc, session)
         else:
             for mode in ([c["mode"]] if c.get("mode") else ["fresh", "shared"]):
                 res = check_tree_routes(ctx, dendropy, doc, mode, tmpdir, True)
@@ -1303,5 +1604,97 @@ def replay(ctx, rec):
             keep = [f for f in ctx.failures if f["replay"].get("route") == c["route"]]
             if keep:
                 ctx.failures[:] = keep
+    finally:
+        shutil.rmtree(tmpdir, ignore_errors=True)
+
+
+# ------------------------------------------------------------------------------------------ targeted search when an obligation broke
+def _words_in(path, funcs):
+    """every upper-case word literal in the named functions of a source file (lenient: used only to aim the search)"""
+    import ast
+    out = set()
+    try:
+        tree = ast.parse(open(path).read())
+    except Exception:
+        return out
+    for n in ast.walk(tree):
+        if isinstance(n, ast.FunctionDef) and n.name in funcs:
+            for c in ast.walk(n):
+                if isinstance(c, ast.Constant) and isinstance(c.value, str) and re.fullmatch(r"[A-Za-z]{3,12}", c.value):
+                    out.add(c.value)
+    return out
+
+
+def search(ctx, broken):
+    """generation of Gen/C13Keys.lean or a theorem over it broke (or model and code disagree): the keyword tables of the reader
+    and of its copy in the iterator, or the source-keyword dispatch, changed.  Look for a concrete source on which the routes
+    now differ: every block name / statement keyword / source keyword either table mentions (now or as modelled), used in the
+    position where the front ends test it, through every route."""
+    dendropy = __import__("dendropy")
+    from common import REPO
+    src = os.path.join(REPO, "src", "dendropy")
+    words = set(["TAXA", "CHARACTERS", "DATA", "TREES", "SETS", "ASSUMPTIONS", "CODONS", "BEGIN", "END", "ENDBLOCK", "LINK", "TITLE",
+                 "TRANSLATE", "TREE", "NOTES", "PAUP"])
+    words |= _words_in(os.path.join(src, "dataio", "nexusreader.py"), ("_parse_nexus_stream", "_parse_trees_block"))
+    words |= _words_in(os.path.join(src, "dataio", "nexusyielder.py"), ("_yield_items_from_stream", "_yield_from_trees_block"))
+    words = sorted(w.upper() for w in words)
+    tmpdir = tempfile.mkdtemp(prefix="c13-")
+    session = ModelSession(ctx)
+    try:
+        docs = []
+        taxa = "BEGIN TAXA; DIMENSIONS NTAX=3; TAXLABELS a b c; END;\n"
+        trees = "BEGIN TREES; TREE t1 = (a,(b,c)); TREE t2 = ((a,b),c); END;\n"
+        for w in words:
+            # as a block name, in front of / behind / between the trees
+            for body in ("x;", "TITLE y; x 1 2;", ""):
+                if w == "TAXA":
+                    break          # a second TAXA block is a listed known finding of its own
+                docs.append("#NEXUS\n" + taxa + "BEGIN %s; %s END;\n" % (w, body) + trees)
+                docs.append("#NEXUS\n" + taxa + trees + "BEGIN %s; %s END;\n" % (w, body) + trees)
+            # as a statement keyword inside a TREES block, before / between / after TREE statements
+            docs.append("#NEXUS\n" + taxa + "BEGIN TREES; %s x; TREE t1 = (a,(b,c)); END;\n" % w)
+            docs.append("#NEXUS\n" + taxa + "BEGIN TREES; TREE t1 = (a,(b,c)); %s x; TREE t2 = ((a,b),c); END;\n" % w)
+            docs.append("#NEXUS\n" + taxa + "BEGIN TREES; TREE t1 = (a,(b,c)); TREE t2 = ((a,b),c); %s;\n" % w + trees)
+            docs.append("#NEXUS\nBEGIN TREES; %s 1 a, 2 b, 3 c; TREE t1 = (1,(2,3)); %s 4 d; TREE t2 = ((1,2),4); END;\n" % (w, w))
+        import time as _time
+        deadline = _time.time() + ctx.pick(30, 150)      # the exploration budget is spent by now: the search has its own
+        for text in docs:
+            if _time.time() > deadline:
+                ctx.count("search_documents_not_reached")
+                continue
+            one_document(ctx, dendropy, {"schema": "nexus", "text": text, "opts": {}}, tmpdir, session, full=False, kind="search")
+            if len(session.pending) >= 400:
+                session.flush()
+        session.flush()
+        # the source keywords: every keyword of the table as it is now, and as modelled, through get and read
+        kws = set(["file", "path", "url", "data", "stream", "string"])
+        try:
+            kws |= set(c13keys.tables(REPO)["targetKeywords"])
+        except Exception:
+            kws |= set(w.lower() for w in _words_in(os.path.join(src, "datamodel", "basemodel.py"),
+                                                    ("_extract_serialization_target_keyword", "_get_from", "_read_from")))
+        text = "(a,(b,c));((a,b),c);"
+        doc = {"schema": "newick", "text": text, "opts": {}}
+        want = [tree_rec(t, TaxKey(None)) for t in dendropy.TreeList.get(data=text, schema="newick")]
+        fd, path = tempfile.mkstemp(dir=tmpdir, suffix=".txt")
+        with os.fdopen(fd, "w") as f:
+            f.write(text)
+        for kw in sorted(kws):
+            if kw == "url":
+                continue
+            val = {"file": lambda: io.StringIO(text), "stream": lambda: io.StringIO(text), "path": lambda: path}.get(kw, lambda: text)
+            for via_read in (False, True):
+                case = Case(ctx, doc, "fresh")
+                name = "TreeList.%s(%s=)" % ("read" if via_read else "get", kw)
+
+                def run():
+                    if via_read:
+                        tl = dendropy.TreeList()
+                        tl.read(schema="newick", **{kw: val()})
+                        return tl
+                    return dendropy.TreeList.get(schema="newick", **{kw: val()})
+                got = case.attempt(name, run, source=kw)
+                if got is not None:
+                    case.same(name, [tree_rec(t, TaxKey(None)) for t in got], want, "TreeList.get(data=)", source=kw)
     finally:
         shutil.rmtree(tmpdir, ignore_errors=True)
